@@ -20,6 +20,47 @@ CHECKS = {
          "Every reachable product state of each strict front-end up to nesting D (3 quick / 5 thorough) is visited and every one of the 256 byte values, plus end of input, is executed on the real code from it and compared with a reference pushdown recogniser; the []byte entry point is run on every explored input. Within the bound this is a complete decision of the accept set, which no finite list of documents gives.",
          "Trusted: the jsonref recogniser (cross-checked against encoding/json.Valid on every explored input), the abstract state key (mode, nextMode, literal index, container stack shape, number threshold flags), nesting bound D.",
          "DESIGN.md §2.1, §3 C01", "bytemc"),
+ "C02": (EX, "bounded-exhaustive enumeration of number literals / string escape sequences / small trees through six front-end paths against a big.Rat + encoding/json reference",
+         "Every literal of the number family (sign x integer digit patterns of length 1..21 incl. the int64/uint64 boundaries x fraction with 0..21 leading zeros x exponent forms), every string of <=2 (quick) / <=3 (thorough) escape items (all 65536 single \\uXXXX escapes, surrogate pairs, raw invalid bytes) as value and key, and every tree up to 5 nodes is parsed by oj.Parse, 1-byte ParseReader, oj.Tokenize, gen.Parser (both) and sen.Parse and compared with the reference value. The space is a matrix of code paths (threshold digit counts, escape cells), filled completely up to the bound.",
+         "Trusted: strconv.ParseFloat, math/big, encoding/json (cross-checked); valref decoder for non-UTF-8 inputs. Lone surrogates and raw invalid bytes accept several readings.",
+         "DESIGN.md §3 C02", "core"),
+ "C04": (EX, "bounded-exhaustive enumeration of value trees x writer entry points x option products x WriteLimits against encoding/json + an omit accept-set reference",
+         "Every tree up to the node bound over a leaf alphabet with one representative per string/number class (simple and gen form), deep single-child chains and the aligned-table family is written by every JSON writer entry point under the full product of boolean options (+ Width/MaxDepth/Align for pretty) and every WriteLimit; output must be valid JSON, decode to the tree minus exactly the omitted members, be byte-identical when streamed, and sorted/deterministic under Sort.",
+         "Trusted: encoding/json as JSON oracle; OmitEmpty read as an accept-set (DESIGN §2.5); map orders repeated, not enumerated.",
+         "DESIGN.md §3 C04", "core"),
+ "C10": (EX, "bounded-exhaustive enumeration of strings over SEN byte classes + reserved family x 4 contexts x 8 writers x options, round trip through sen.Parse",
+         "All strings of <=2 (quick) / <=3 (thorough) class representatives (classes recomputed from the current SEN tables) plus the reserved family, as top-level value, array element, member value and member key, numbers and small trees, through every SEN writer entry point and option vector; sen.Parse of the text must give back an equal tree (strings stay strings, keys exact).",
+         "Trusted: byte-class partition; a fresh sen.Parser per case; numbers by value.",
+         "DESIGN.md §3 C10", "core"),
+ "C12": (EX, "exhaustive operator x operand-kind x operand-kind matrix and bounded logic trees against a three-valued reference evaluator",
+         "Every operator x left operand x right operand (constants and @-paths, simple and gen data, missing / single / multi-valued paths), built through the constructors and by parsing the text, plus every &&/||/! tree up to depth 2 (quick) / 3 (thorough) on an element corpus; result must equal the reference, never panic, and Script.Match must equal filter membership.",
+         "Trusted: scriptref (answers 'any' where the documentation leaves the result open); operator list read from the code.",
+         "DESIGN.md §3 C12", "core"),
+ "C14": (EX, "bounded-exhaustive enumeration of jp.Expr and Equation trees built with the public constructors; print / parse / re-print / evaluate differential",
+         "Every expression of <=2 (quick) / <=3 (thorough) fragments over a key alphabet with quotes, backslashes, control and non-ASCII characters, and every equation tree up to depth 2/3 over all operator pairs and constant kinds: String()/BracketString() must parse, print identically again and evaluate identically on tailored data; scripts must Match identically on a corpus in which every leaf takes two values.",
+         "Trusted: ojg's own Get/Match on both sides (differential, no reference evaluator); smaller-witness subsumption for attribution.",
+         "DESIGN.md §3 C14", "core"),
+ "C15": (EX, "bounded-exhaustive enumeration of reflect.StructOf types x values x option products x encoders against a reference encoder and encoding/json; BFS over plan-cache first-use orders",
+         "Every struct type of <=2 (quick) / <=3 thinned (thorough) fields over 22 field kinds x 6 tag classes x values x the option product is encoded by all encoder entry points; all outputs must denote one tree, equal to the reference encoder (option documentation) and to encoding/json under GoOptions; the cache-history leg explores every first-use order of (type, OmitEmpty, package) from empty caches.",
+         "Trusted: encref (cross-checked against encoding/json on every case); readings weakened where options.go is silent (see checks/c15/TRIAGE.md).",
+         "DESIGN.md §3 C15", "core"),
+ "C16": (MC, "explicit-state BFS over recomposer registry states (orders of target types) with each step compared against a fresh recomposer; bounded-exhaustive round trips over StructOf and named types",
+         "History leg: state = registry content of one recomposer (private and alt.DefaultRecomposer), alphabet = recompose into each of 7 target type classes (same-named types of two packages, anonymous structs, embedding/field-of types, custom function); BFS over all orders up to length 3/4 with deduplication; every step's output must equal the output on a fresh recomposer. Value leg: Recompose(Decompose(v)), Unmarshal(Marshal(v)), sen round trip for every enumerated type and value.",
+         "Trusted: reflect.DeepEqual modulo nil/empty; registry snapshot via reflection; process-wide state also contaminates the fresh run (stated).",
+         "DESIGN.md §3 C16", "core"),
+ "C18": (EX, "bounded-exhaustive enumeration of trees x conversions, plus every (copy operation, node position, mutation) aliasing experiment",
+         "Every tree up to the node bound over 30 leaf kinds through Generify/Simplify, GenAlter/Alter, Dup, Decompose, writer equality of gen and simple forms, gen.Parser vs Generify(oj.Parse); for every copying operation every node of copy and original is mutated in five ways and the other side compared with its snapshot.",
+         "Trusted: kind-exact tree codec; in-place variants only required to preserve the value.",
+         "DESIGN.md §3 C18", "core"),
+ "C19": (EX, "bounded-exhaustive enumeration of base trees x single/two-point perturbations x ignore-path sets against a reference diff",
+         "Every base tree, every catalogue perturbation at every location (and pairs), every ignore set derived from the perturbed locations (covers / ancestor / sibling / wildcard / below, singles and pairs, both argument orders) through Diff, Compare and Match on simple and gen trees; missed / spurious / wrong-index / compare-inconsistent are judged by diffref under the three-valued scalar relation.",
+         "Trusted: diffref; int-vs-float of the same value and instants <2ms apart are open; array tail reading of DESIGN §2.5.",
+         "DESIGN.md §3 C19", "core"),
+ "C20": (EX, "bounded-exhaustive enumeration of plans (function x arity x argument atoms, nesting depth 1/2, state-changing sequences) x 12 roots against an outcome-set reference",
+         "Every function of asm.FnDocs() (read at run time) x arity 0..4 x argument atoms (+ depth-2 templates in thorough) on 12 roots: Execute never panics, two executions agree, the result is in the reference's outcome set for 37 modelled functions, String()/Simplify() rebuild an equivalent plan, and $.src is untouched unless a documented mutator targets it.",
+         "Trusted: asmref (doc.go is the specification; ambiguous wording yields several acceptable outcomes); masked 'runtime error:' results accepted.",
+         "DESIGN.md §3 C20", "core"),
+
  "C03": (MC, "explicit-state BFS + chunk lemma: every (reachable state, short chunk) pair fed at once vs byte-wise with concrete snapshot comparison; joint product agreement of all front-ends; token x split enumeration",
          "Leg A decides chunk-independence by induction: for every reachable abstract state of each machine (single and multi-document) and every chunk of length 2..L over one representative per byte class (recomputed from the current tables), feeding the chunk at once and byte by byte must reach the same concrete state and the same final outcome. Leg B runs every input of the oj.Parser product search through all front-ends (whole and byte-wise, callback and channel) and requires equal trees or an error everywhere. Leg C splits long tokens at every offset and across the 4096-byte refill; leg D compares sen.Parse / ParseReader / Tokenize on every short SEN text.",
          "Trusted: abstract key and snapshot masking (scratch fields), byte-class partition, nesting and chunk-length bounds. SEN-only syntax is a known broken area (wildcard findings); SEN on strict JSON input and the SEN token list of leg C remain sharp.",
